@@ -915,6 +915,17 @@ def address_spellings_whole(ctx: Ctx, rep: Report, rid: str = "R01.16") -> None:
                     rep.violation(q, f"{line!r} -> groups {groups}", f"the address {a!r} is not read whole" + (f" (read as {near!r}: an earlier alternative matches a prefix of it)" if near else "") + ": the entry means another network, and what follows the address is lost or mis-assigned", where(f), inp=f"Ace({line!r})")
         if not accepted_any:
             rep.note(f"{rid} {q}: no witness line matched the assembled pattern (not judged)")
+        # the largest sequence number the setters accept is read as the sequence number
+        smax = ctx.folder.try_const("helpers", "SEQUENCE_MAX")
+        if isinstance(smax, int):
+            line = f"{smax} " + mk("any", "")
+            m = pat.match(line)
+            n += 1
+            rep.instance()
+            if m and str(smax) in [str(g or "").strip() for g in m.groups()]:
+                rep.ok(f"{q}: {line!r}", "sequence number read whole", nontrivial=False, where=where(f))
+            else:
+                rep.violation(q, f"{line!r} -> {[str(g or '').strip() for g in m.groups()] if m else None}", f"the grammar does not read the sequence number {smax} (the largest the setters accept and resequence() can produce): the rendered entry is refused or its number is cut", where(f), inp=f"ace.sequence = {smax}; Ace(ace.line)")
     rep.floor(6, "address spellings read by the ACE grammars") if n else None
 
 
@@ -949,6 +960,45 @@ def group_reference_whole(ctx: Ctx, rep: Report, rid: str = "R01.17") -> None:
                     rep.violation(f.qualname, f"{pat!r} on '{kw} {nm}' -> {got!r}", "the referenced group name is not read whole: two groups whose names differ after the cut are the same group for the library (shadow removal works by rendered line and deletes the wrong entry)", where(f), inp=f"permit ip {kw} {nm} any")
     if n == 0:
         rep.note(f"{rid} the pattern of _line_addrgroup could not be folded (not judged)")
+
+
+def log_keywords_pass(ctx: Ctx, rep: Report, rid: str = "R01.18") -> None:
+    """Every log keyword is a valid option word: the test that refuses a word in `Option.line` is evaluated by the constant
+    folder on each member of LOGS (and on sample flags) and must not take the raising branch (a pattern of letters and
+    digits refuses `log-input`: the entry is refused, or dropped with a warning when it stands in an ACL)."""
+    from ..fold import known as _known
+
+    rep.rule(rid)
+    f = ctx.func("Option.line.setter")
+    cfg = ctx.cfg(f)
+    logs = ctx.folder.try_const("option", "LOGS")
+    words = sorted(logs) if isinstance(logs, (list, tuple, set, frozenset)) else []
+    words += ["ack", "syn", "established", "dscp", "af11", "echo-reply", "time-range"]
+    n = 0
+    for lp in [x for x in cfg.live if x.kind == "for" and isinstance(x.ast.target, ast.Name)]:
+        var = lp.ast.target.id
+        for c in [x for x in cfg.live if x.kind == "cond" and x.ast is not None and any(isinstance(y, ast.Name) and y.id == var for y in ast.walk(x.ast))]:
+            raising = {lab for lab in ("T", "F") for s_ in c.succs(lab) if s_.kind == "stmt" and isinstance(s_.ast, ast.Raise)}
+            if not raising:
+                continue
+            n += 1
+            rep.instance()
+            refused, unknown = [], False
+            for w in words:
+                v = ctx.folder.fold(c.ast, f.module, {var: w})
+                if not _known(v):
+                    unknown = True
+                    break
+                if ("T" if v else "F") in raising:
+                    refused.append(w)
+            if unknown:
+                rep.note(f"{rid} the word test `{snippet(c.ast, 40)}` could not be evaluated (not judged)")
+            elif refused:
+                rep.violation("Option.line.setter", snippet(c.ast, 60), f"the word test refuses {refused}: an entry that carries such a word is refused (and dropped with a warning inside an ACL)", where(f, c.ast), inp=f"permit ip any any {refused[0]}")
+            else:
+                rep.ok(f"Option.line setter: {snippet(c.ast, 40)}", f"accepts all {len(words)} witness words (every log keyword among them)", where=where(f, c.ast))
+    if n == 0:
+        rep.note(f"{rid} no refusing word test found in Option.line setter")
 
 
 def validated_before_stored(ctx: Ctx, rep: Report, rid: str = "R01.14") -> None:
@@ -997,6 +1047,7 @@ def run(ctx: Ctx, rep: Report, tier: str) -> None:
     validated_before_stored(ctx, rep)
     address_spellings_whole(ctx, rep)
     group_reference_whole(ctx, rep)
+    log_keywords_pass(ctx, rep)
     # R01.15 an address in the text is read whole (C13 R13.7)
     from .c13 import address_patterns_whole
 
